@@ -115,7 +115,13 @@ def collect(repo):
     ]
     # ---- sanitizer
     H = san.HTMLSanitizer
+    _p = H("utf-8", "text/html")
+    _p.feed('<svg xmlns="http://www.w3.org/2000/svg"><g/></svg>')      # runs the real lazy initialisation
     T["Sanitizer"] = [
+        ("svgElementsLower", "List String", sset(_p.svg_elements)),
+        ("svgAttributesLower", "List String", sset(_p.svg_attributes)),
+        ("svgElemMap", "List (String × String)", sorted((_p.svg_elem_map or {}).items())),
+        ("svgAttrMap", "List (String × String)", sorted((_p.svg_attr_map or {}).items())),
         ("acceptableElements", "List String", sset(H.acceptable_elements)),
         ("acceptableAttributes", "List String", sset(H.acceptable_attributes)),
         ("unacceptableElementsWithEndTag", "List String", sset(H.unacceptable_elements_with_end_tag)),
@@ -129,6 +135,7 @@ def collect(repo):
         ("elementsNoEndTag", "List String", sset(fhtml.BaseHTMLProcessor.elements_no_end_tag)),
         ("cp1252", "List (Nat × Nat)", sorted((k, ord(v)) for k, v in fhtml._cp1252.items())),
         ("validCssValuesPattern", "String", H.valid_css_values.pattern),
+        ("entityNames", "List String", sorted(set(__import__("html.entities").entities.name2codepoint) | {"apos"})),
     ]
     # ---- mixin
     M = mixin.XMLParserMixin
